@@ -80,33 +80,77 @@ func main() {
 		rewritten[key]++
 		return false
 	})
-	ast.Inspect(f, func(n ast.Node) bool {
-		ce, ok := n.(*ast.CallExpr)
-		if !ok || len(ce.Args) != 4 {
-			return true
-		}
-		key := ""
-		switch fn := ce.Fun.(type) {
-		case *ast.Ident:
-			key = "hookctl:" + fn.Name
-		case *ast.SelectorExpr:
-			if id, ok := fn.X.(*ast.Ident); ok {
-				key = "hookctl:" + names[id.Name] + "." + fn.Sel.Name
+	entries := map[string][]string{}
+	for w := range want {
+		if strings.HasPrefix(w, "entry:") {
+			parts := strings.SplitN(w[6:], ":", 2)
+			var exprs []string
+			if len(parts) == 2 && parts[1] != "" {
+				exprs = strings.Split(parts[1], ";")
 			}
+			entries[parts[0]] = exprs
 		}
-		if key == "" || !want[key] {
-			return true
+	}
+	for _, decl := range f.Decls {
+		fdecl, ok := decl.(*ast.FuncDecl)
+		if !ok || fdecl.Body == nil {
+			continue
 		}
-		inner := &ast.CallExpr{Fun: ce.Fun, Args: ce.Args}
-		lit := &ast.FuncLit{
-			Type: &ast.FuncType{Params: &ast.FieldList{}, Results: &ast.FieldList{List: []*ast.Field{{Type: ast.NewIdent("error")}}}},
-			Body: &ast.BlockStmt{List: []ast.Stmt{&ast.ReturnStmt{Results: []ast.Expr{inner}}}},
+		if exprs, ok := entries[fdecl.Name.Name]; ok {
+			args := []ast.Expr{&ast.BasicLit{Kind: token.STRING, Value: strconv.Quote(fdecl.Name.Name)}}
+			for _, e := range exprs {
+				x, err := parser.ParseExpr(e)
+				if err != nil {
+					fmt.Fprintf(os.Stderr, "instr: bad entry expression %q: %v\n", e, err)
+					os.Exit(2)
+				}
+				args = append(args, x)
+			}
+			call := &ast.ExprStmt{X: &ast.CallExpr{Fun: &ast.SelectorExpr{X: ast.NewIdent(schedName), Sel: ast.NewIdent("Enter")}, Args: args}}
+			fdecl.Body.List = append([]ast.Stmt{call}, fdecl.Body.List...)
+			rewritten["entry:"+fdecl.Name.Name]++
 		}
-		*ce = ast.CallExpr{Fun: &ast.SelectorExpr{X: ast.NewIdent(schedName), Sel: ast.NewIdent("EpollCtlHook")},
-			Args: []ast.Expr{ce.Args[1], ce.Args[2], lit}}
-		rewritten[key]++
-		return false
-	})
+	}
+	for name := range entries {
+		if rewritten["entry:"+name] == 0 {
+			fmt.Fprintf(os.Stderr, "instr: function %s not found in %s (tie broken)\n", name, in)
+			os.Exit(2)
+		}
+	}
+	for _, decl := range f.Decls {
+		fdecl, ok := decl.(*ast.FuncDecl)
+		if !ok || fdecl.Body == nil {
+			continue
+		}
+		encl := fdecl.Name.Name
+		ast.Inspect(fdecl.Body, func(n ast.Node) bool {
+			ce, ok := n.(*ast.CallExpr)
+			if !ok || len(ce.Args) != 4 {
+				return true
+			}
+			key := ""
+			switch fn := ce.Fun.(type) {
+			case *ast.Ident:
+				key = "hookctl:" + fn.Name
+			case *ast.SelectorExpr:
+				if id, ok := fn.X.(*ast.Ident); ok {
+					key = "hookctl:" + names[id.Name] + "." + fn.Sel.Name
+				}
+			}
+			if key == "" || !want[key] {
+				return true
+			}
+			inner := &ast.CallExpr{Fun: ce.Fun, Args: ce.Args}
+			lit := &ast.FuncLit{
+				Type: &ast.FuncType{Params: &ast.FieldList{}, Results: &ast.FieldList{List: []*ast.Field{{Type: ast.NewIdent("error")}}}},
+				Body: &ast.BlockStmt{List: []ast.Stmt{&ast.ReturnStmt{Results: []ast.Expr{inner}}}},
+			}
+			*ce = ast.CallExpr{Fun: &ast.SelectorExpr{X: ast.NewIdent(schedName), Sel: ast.NewIdent("EpollCtlHook")},
+				Args: []ast.Expr{&ast.BasicLit{Kind: token.STRING, Value: strconv.Quote(encl)}, ce.Args[2], lit}}
+			rewritten[key]++
+			return false
+		})
+	}
 	ast.Inspect(f, func(n ast.Node) bool {
 		se, ok := n.(*ast.SelectorExpr)
 		if !ok {
